@@ -28,6 +28,12 @@ def gen(rng, tier):
         cap = 6000 if k <= 3 else 1300 if k <= 10 else 300
         ls = [rng.choice([1, 2, 4, 1004, 1008, 1012, 1016, rng.randrange(1, cap + 1)]) if cap >= 1016 else rng.randrange(1, cap + 1) for _ in range(k)]
         cases.append({'lens': ls, 'blocked': rng.random() < 0.5, 'api': rng.choice(['class', 'func', 'with', 'mixed', 'mixed']), 'seed': rng.randrange(1 << 30)})
+    # unblocked files whose bytes at the positions where a blocked file has its trailers (1012-1013, 2026-2027, ...) are all
+    # 0x40: fixed-width records of EBCDIC blanks.  Read with the documented defaults (no `blocked` argument at all): a
+    # file is what the caller says it is, not what it looks like
+    for n, k in ((200, 15), (250, 12), (1010, 4), (60, 60), (2030, 2)):
+        cases.append({'lens': [n] * k, 'blocked': False, 'api': 'class', 'seed': 0, 'blank': True, 'defaults': True})
+        cases.append({'lens': [n] * k, 'blocked': False, 'api': 'func', 'seed': 0, 'blank': True, 'defaults': True})
     # "the configured maximum record length" is a setting: config.config['MAX_VBS_RECORD_LENGTH'] changed by the caller
     # after the library was imported (smaller and larger than the packaged 6000), records up to exactly that length
     for _ in range(60 if tier == 'quick' else 1500):
@@ -40,6 +46,8 @@ def gen(rng, tier):
 
 def records(case):
     import random
+    if case.get('blank'):
+        return [b'\x40' * n for n in case['lens']]
     r = random.Random(case['seed'])
     return [record_content(r, n) for n in case['lens']]
 
@@ -96,7 +104,13 @@ def impl_run(case):
     res = {'file': wo}
     if wo.startswith('OK '):
         f = bytes.fromhex(wo[3:]) if wo[3:] != '-' else b''
-        if case['api'] == 'func':
+        if case.get('defaults'):
+            # no `blocked` argument at all
+            if case['api'] == 'func':
+                res['read'] = outcome(lambda: mciipm.vbs_bytes_to_list(f), lambda l: hlist(l) + '|END')
+            else:
+                res['read'] = outcome(lambda: list(mciipm.VbsReader(io.BytesIO(f))), lambda l: hlist(l) + '|END')
+        elif case['api'] == 'func':
             res['read'] = outcome(lambda: mciipm.vbs_bytes_to_list(f, blocked=blocked), lambda l: hlist(l) + '|END')
         else:
             res['read'] = rend_text(*read_all_impl(f, blocked))
